@@ -4,11 +4,15 @@
 (* before / after: the neighbour's NAME sorts before / after the item's within its kind (the output is ordered by kind, then name), and  *)
 (* its source text stands before / after the item's.                                                                                    *)
 EXTENDS TLC, Json, Naturals
-CONSTANTS Items, MaxNeighbours, Places
+CONSTANTS Items, MaxNeighbours, Places, Namings, Orders
 VARIABLE c
 \* place: same_file (the neighbours stand in the item's source file) / other_crate (folder output: the neighbours are the items of
 \* OTHER crates of the run, whose modules are generated before / after the item's module by the same backend instance)
-Init == c \in { r \in [item : Items, before : Items \cup {"none"}, after : Items \cup {"none"}, place : Places] :
+\* naming: how the neighbour is called relative to the item: far (Aaa / Zzz) / prefix (the neighbour's name is a prefix of the item's, or the
+\* item's name a prefix of the neighbour's) / case (the names differ only in the case of their letters)
+\* order: the neighbour's source text stands where its name sorts (as_named) or on the other side of the item (crossed)
+Init == c \in { r \in [item : Items, before : Items \cup {"none"}, after : Items \cup {"none"}, place : Places, naming : Namings, order : Orders] :
+                  /\ (r.naming # "far" \/ r.order # "as_named") => (r.place = "same_file" /\ (r.before = "none") # (r.after = "none"))
                   /\ r.before # r.item /\ r.after # r.item
                   /\ (r.before = "none" /\ r.after = "none") => r.place = "same_file"
                   /\ (r.before # "none" /\ r.after # "none") => (MaxNeighbours >= 2 /\ r.before # r.after) }
